@@ -10,7 +10,7 @@ CHECKS = {
         "2-40 importer processes (GFF3/GTF inputs incl. GTF without exon lines, same or different, offsets 0-20 ms, one shared TMPDIR, outputs with distinct or identical basenames) are released together and held at the "
         "creation of their intermediate file until all have one; every output snapshot must equal the solitary import of its input, the shared "
         "temp dir must be empty afterwards, and 2-32 concurrent readers of a finished file must all see its full content. Overlapping pairs and "
-        "barrier meetings are measured and reported; the clock is never an oracle.",
+        "barrier meetings are measured and reported; the clock is never an oracle. Input variants include gzip with a ##FASTA tail and inputs whose import must fail (duplicate ID) while the others are held between writing and reading back their intermediate file.",
         "Schedules are sampled, not enumerated; inputs are paths.",
         "DESIGN.md section 4 C20",
     ),
@@ -20,7 +20,7 @@ CHECKS = {
         "update and a faulty update whose source raises after k items are applied to a real file database and to a reference model (MergeModel + set "
         "arithmetic for relations incl. the level-2 closure); after every step the features, relations, directives, dialect and id counters must "
         "equal the model (also through look-ups, counts and distinct values on the long-lived handle), auto ids never recur, and with make_backup the .bak file must be the complete pre-operation database - also when the "
-        "operation then fails. All sequences up to depth 3 (quick) / 4 (thorough) over a fixed 8-operation alphabet are enumerated as well.",
+        "operation then fails. All sequences up to depth 3 (quick) / 4 (thorough) over two fixed 8-operation alphabets (general, merge-centred) are enumerated as well.",
         "Faults are exceptions raised by the feature source (no process/disk crash); after a raising update only the .bak promise is checked; "
         "replace updates that change Parent are excluded (known finding D11).",
         "DESIGN.md section 4 C10",
@@ -58,7 +58,7 @@ CHECKS = {
         "a greedy reference that has its own implementation of each shipped criterion, and (default criteria) with an independent sweep of maximal "
         "overlapping-or-adjacent runs; outputs must partition the input objects, span min..max of their children, carry fresh ids, leave inputs and "
         "database untouched, and re-merging the same objects (same or other criteria, or the outputs) must agree again. merge_all and children_bp "
-        "are compared on generated databases (incl. empty featuretypes_groups and a later merge() on the same handle).",
+        "are compared on generated databases (incl. empty featuretypes_groups, stored bins, relations of deleted members, merged outputs written back with update() while the merge() generator is consumed, and a later merge() on the same handle).",
         "Criteria reflexive; exhaustive only for the stated scope.",
         "DESIGN.md section 4 C16",
     ),
@@ -92,7 +92,7 @@ CHECKS = {
         "Hypothesis-generated colliding feature sequences against a sequential reference model of the five strategies (create_db and create_db+update)",
         "2-7 features over colliding keys with pooled columns/attributes/Parent values are imported under each strategy and force_merge_fields subset, "
         "through the GFF3 and the GTF importer, all at once or split between create_db and update(); ids, columns, attributes (sets for merged "
-        "features, exact otherwise), the error outcome and the whole relation table must equal MergeModel's. One known finding (D11, replace keeps "
+        "features, exact otherwise), the error outcome and the whole relation table must equal MergeModel's. A second leg enumerates all operation sequences (depth 3 quick / 5 thorough) over a merge-centred alphabet of updates, deletes and reopen against the same model. One known finding (D11, replace keeps "
         "the replaced line's links) is matched by signature and reported as KNOWN-FINDING.",
         "MergeModel (gfv/refmodels.py) is a second implementation of the statement/database-ids.rst; a shared misreading would go unnoticed.",
         "DESIGN.md section 4 C05, Appendix A.1",
@@ -101,7 +101,7 @@ CHECKS = {
         "Hypothesis-generated Parent DAGs rendered as permuted GFF3 files; reference-graph oracle over every (feature, level, featuretype, order_by) query",
         "DAGs up to 12 features and depth 4 with multi-parent, shared and dangling Parent values and exotic ids are written in a generated line order; "
         "children()/parents() of every stored feature at level None/1/2/3 with featuretype and order_by variants must equal the reference graph's "
-        "sets exactly (no repeats, never the feature itself), dangling parents raise FeatureNotFoundError, iter_by_parent_childs agrees; in a share of cases the tail of the file arrives later through update().",
+        "sets exactly (no repeats, never the feature itself), dangling parents raise FeatureNotFoundError, iter_by_parent_childs agrees; in a share of cases the tail of the file arrives later through update(), also written in another separator dialect; files may mix comma lists with repeated Parent keys.",
         "Reference graph in gfv/props/c02.py reference(); ids unique.",
         "DESIGN.md section 4 C02",
     ),
@@ -109,7 +109,7 @@ CHECKS = {
         "Hypothesis-generated gene/transcript/exon structures rendered as shuffled GTF files; extents and hierarchy from a reference computation",
         "Derived transcript/gene features must exist exactly for ids owning an exon (unless disabled or explicitly present), span min start..max end of "
         "the exons on their seqid/strand, and children/parents at levels 1 and 2 must equal the id-carrying lines; explicit gene/transcript lines stay "
-        "single and are never their own relative; all four disable_infer_* combinations and custom keys/subfeature; in a share of cases the last gene arrives through update() with the same flags.",
+        "single and are never their own relative; all four disable_infer_* combinations and custom keys/subfeature; in a share of cases the last gene, or one transcript's exons, arrive through update() with the same flags, optionally after an update with a constructor-built Feature and a reopen.",
         "Every line carries gene and transcript keys; one seqid/strand per gene; children(gene, 2) may include stored transcripts.",
         "DESIGN.md section 4 C03",
     ),
@@ -117,7 +117,7 @@ CHECKS = {
         "Hypothesis-generated records x id_spec forms against a reference implementation of the documented id rules",
         "Stored ids must equal ref_ids() (database-ids.rst) in input order for 16 id_spec forms incl. lists, dicts, ':field:' and callables, be unique, "
         "db[id]/db[feature] must return exactly the stored line, generated absent keys (prefixes, case variants, SQL wildcards, padded) must raise "
-        "FeatureNotFoundError carrying the key, and a multi-valued selected id attribute must make create_db raise ValueError; in a share of cases the tail arrives through one or two update() calls on the same handle (numbering continues, look-ups follow, also under 'replace').",
+        "FeatureNotFoundError carrying the key, and a multi-valued selected id attribute must make create_db raise ValueError; in a share of cases the tail arrives through one or two update() calls on the same handle (numbering continues, look-ups follow, also under 'replace', also after a delete and a reopen of the file).",
         "Reference ref_ids()/resolve_unique() in gfv/props/c04.py; explicit ids avoid the generated-name shapes.",
         "DESIGN.md section 4 C04",
     ),
